@@ -577,9 +577,10 @@ class World:
         d = d or self.variant(vid)
         self.write_configs(d, vid)
         base_dir = Path(base_dir or os.path.join(self.root_dir, 'data'))
-        ctx = self._context_arg(d, d.get('context'), vid, [0])
-        gv = self._global_vars(d)
         root = root or d['root']
+        ctxdecl = (d.get('contexts') or {}).get(root, d.get('context')) if not isinstance(root, list) else d.get('context')
+        ctx = self._context_arg(d, ctxdecl, vid, [hash(str(root)) % 1000 * 10])
+        gv = self._global_vars(d)
 
         def build(cid, top=True):
             c = d['configs'][cid]
